@@ -427,6 +427,11 @@ def make_kernels(ctx, lab, n_gen, thorough):
     # the instruction the property's known defect is about, always present
     lab.add_kernel("rmw_x86.s", "addq %rax, 8(%rbx)\naddq %rcx, 16(%rbx)\nvaddpd (%rax), %ymm0, %ymm1\nfoo %rax, %rbx\n")
     kernels.append(("rmw_x86.s", "x86", 4))
+    # kernels whose analysis depends on -f / --consider-flag-deps (a flag producer feeding a flag consumer on a cycle)
+    lab.add_kernel("flags_x86.s", "cmpq %rcx, %rdx\ncmovne %rax, %rbx\naddq %rbx, %rax\nsbbq %rax, %rcx\n")
+    kernels.append(("flags_x86.s", "x86", 4))
+    lab.add_kernel("flags_a64.s", "subs x9, x9, #1\ncsel x0, x1, x2, ne\nadd x1, x0, x9\nadcs x2, x1, x0\nb.ne .L2\n")
+    kernels.append(("flags_a64.s", "aarch64", 5))
     return kernels
 
 
@@ -483,9 +488,19 @@ def run(ctx):
     ctx.log("pristine process: %d state keys, %d models loaded cold (%.1fs)" % (len(pristine), len(archs), time.time() - t0))
 
     # ---- request pool and fresh-process baselines
-    pool, seen = [], set()
+    pool, seen, siblings = [], set(), {}
     pool.append({"kernel": "rmw_x86.s", "argv": ["--arch", "zen2"]})
     seen.add(L.req_id(pool[0]))
+    for kname, kisa in (("flags_x86.s", "x86"), ("flags_a64.s", "aarch64")):
+        same = [a for a in archs if L.ARCH_ISA[a] == kisa]
+        if same:
+            arch = ctx.rng.choice(same)
+            a, b = {"kernel": kname, "argv": ["--arch", arch]}, {"kernel": kname, "argv": ["--arch", arch, "-f"]}
+            for q in (a, b):
+                pool.append(q)
+                seen.add(L.req_id(q))
+            siblings.setdefault(L.req_id(a), []).append(b)
+            siblings.setdefault(L.req_id(b), []).append(a)
     tries = 0
     while len(pool) < pool_size and tries < pool_size * 20:
         tries += 1
@@ -493,6 +508,17 @@ def run(ctx):
         if L.req_id(rq) not in seen:
             seen.add(L.req_id(rq))
             pool.append(rq)
+            # option siblings: the same kernel (and architecture) with exactly one option toggled -- what a cache keyed by
+            # too little of the request confuses
+            if ctx.rng.random() < 0.5:
+                opt = ctx.rng.choice(["-f", "-f", "--fixed", "--ignore-unknown"])
+                argv = [a for a in rq["argv"] if a != opt] if opt in rq["argv"] else rq["argv"] + [opt]
+                sib = {"kernel": rq["kernel"], "argv": argv}
+                if L.req_id(sib) not in seen:
+                    seen.add(L.req_id(sib))
+                    pool.append(sib)
+                siblings.setdefault(L.req_id(rq), []).append(sib)
+                siblings.setdefault(L.req_id(sib), []).append(rq)
     fresh = {}
 
     def fresh_of(rq, mode):
@@ -516,6 +542,14 @@ def run(ctx):
             unstable.add(L.req_id(rq))
     slow = {L.req_id(rq) for rq in pool if fresh[("inspect", L.req_id(rq))]["t"] > 20.0}
     pool = [rq for rq in pool if L.req_id(rq) not in unstable and L.req_id(rq) not in slow]
+    # how many option siblings really differ in their fresh reports (an option that changes nothing shows nothing)
+    for rid, sibs in siblings.items():
+        for sb in sibs:
+            a, b = fresh.get(("inspect", rid)), fresh.get(("inspect", L.req_id(sb)))
+            if a and b and rid < L.req_id(sb):
+                ctx.count("option_sibling_pairs")
+                if rhash(a) != rhash(b):
+                    ctx.count("option_sibling_pairs_with_different_reports")
     ctx.count("fresh_process_runs", len(fresh) + len(again))
     ctx.count("requests_unstable_in_fresh_process", len(unstable))
     ctx.count("requests_too_slow", len(slow))
@@ -533,9 +567,34 @@ def run(ctx):
             x = ctx.rng.choice(h)
             h[0] = dict(x)
             h[-1] = dict(x)
+        # a request directly followed (and preceded) by its option sibling
+        live = {L.req_id(rq) for rq in pool}
+        withsib = [rq for rq in sub if any(L.req_id(sb) in live for sb in siblings.get(L.req_id(rq), []))]
+        if withsib and k >= 5:
+            x = ctx.rng.choice(withsib)
+            sb = ctx.rng.choice([q for q in siblings[L.req_id(x)] if L.req_id(q) in live])
+            i = ctx.rng.randrange(1, k - 3)
+            h[i], h[i + 1], h[i + 2] = dict(x), dict(sb), dict(x)
+            ctx.count("histories_with_option_siblings")
         return h
 
     histories = [("inspect", make_history(n_calls)) for _ in range(n_hist)]
+    # short histories that alternate a request with its option sibling, for the pairs whose fresh reports differ
+    live = {L.req_id(rq): rq for rq in pool}
+    eff = []
+    for rid, sibs in sorted(siblings.items()):
+        for sb in sibs:
+            sid = L.req_id(sb)
+            if rid < sid and rid in live and sid in live and rhash(fresh[("inspect", rid)]) != rhash(fresh[("inspect", sid)]):
+                eff.append((live[rid], sb))
+    ctx.rng.shuffle(eff)
+    # pairs that differ in -f first: flag dependencies are the option a graph cache is most likely to forget
+    eff.sort(key=lambda pr: 0 if (("-f" in pr[0]["argv"]) != ("-f" in pr[1]["argv"])) else 1)
+    ctx.cov["distribution"]["effective_sibling_options"] = [sorted(set(a["argv"]) ^ set(b["argv"])) for a, b in eff][:20]
+    for x, sb in eff[: (40 if thorough else 8)]:
+        a, b = (x, sb) if ctx.rng.random() < 0.5 else (sb, x)
+        histories.append(("inspect", [dict(a), dict(b), dict(a), dict(b)]))
+        ctx.count("alternating_sibling_histories")
     # the load+store instruction twice in every run (first history), with something in between
     histories[0] = ("inspect", [dict(pool[0])] + histories[0][1][1:-1] + [dict(pool[0])])
     shared = [("shared", make_history(10)) for _ in range(n_shared)]
